@@ -54,7 +54,14 @@ RULE = ("random discrete frames: 1..80 rows, 2+|Z| (+1 spare) columns, |Z| 0..3,
         "variants orig/stable/parallel on 2 and 3 variables, with significance levels placed strictly between the five "
         "tests' p-values so that a mis-dispatched name changes the skeleton; K X/Y in Z, Z not iterable, missing "
         "column, missing significance_level, non-DataFrame data, unobserved Categorical level without Z, followed by a "
-        "valid call on the same frame; L row order, Z order (incl. set-valued Z), X/Y swap, column order, 2/4 hash seeds.  A discrete case is non-trivial when the model's dof >= 1; a pearsonr case when the residual "
+        "valid call on the same frame; L row order, Z order (incl. set-valued Z), X/Y swap, column order, 2/4 hash seeds.  N every name (and lambda_ name / number) handed to a test is rebuilt at call time into an equal "
+        "but not identical object, integer names above 256; O Z additionally as generator / map / filter (a bare string "
+        "is not a documented form of Z and is not generated); P 9 / 17 levels, 64 / 65 / 129 / 257 rows, row counts 8 / 9 / "
+        "16 / 17 / 32 / 33, more than 256 strata, integer codes above 2^24, pearsonr with 8 / 9 conditioning columns; "
+        "Q not applicable (no probability tables are passed) - its analogue here, exactly collinear NON-constant "
+        "conditioning columns (all k one-hot dummies, a total next to its parts, an affine copy), is generated for "
+        "pearsonr; R Z container x call form x dtype x name set x index kind are drawn independently per case and per "
+        "session step, sessions run on frames with duplicate / string / MultiIndex labels.  A discrete case is non-trivial when the model's dof >= 1; a pearsonr case when the residual "
         "correlation is defined.  distinct = distinct canonical (kind, data, X, Y, Z, wrapper, lambda_, alpha)")
 TRUSTED_BASE = [
     "scipy.stats.chi2_contingency / power_divergence cell formula (PHI is an uninterpreted atom; the harness "
@@ -124,7 +131,7 @@ def gen_disc(rng, tier):
     X, Y, Z = cols[0], cols[1], cols[2:2 + nz]
     cards = [rng.randint(2, 4) for _ in range(ncols)]
     kinds = [None if rng.random() < 0.55 else cards[c] + rng.choice([0, 0, 0, 1]) for c in range(ncols)]
-    nrows = rng.choice([1, 2, 4, 8, 12, 20, 30, 40, 50, 60, 80, 80, 120])
+    nrows = rng.choice([1, 2, 4, 8, 9, 12, 16, 17, 20, 30, 32, 33, 40, 50, 60, 80, 80, 120])
     law = rng.choice(["unif", "dep", "dep", "copy", "skew"])
     rows = gen_rows(rng, ncols, cards, nrows, law, X, Y, Z)
     w = rng.choice(WRAPPERS)
@@ -193,6 +200,31 @@ def gen_wide(rng, tier):
     decorate(rng, c)
     c["nameset"] = rng.randrange(len(NAMESETS))
     c["zform"] = rng.choice(["set", "frozenset", "list", "tuple"])
+    return c
+
+
+def gen_manylevels(rng, tier):
+    """threshold sizes: 9 / 17 levels of X or Y, row counts around 64 / 128; or a conditioning variable with more than
+    256 levels (more than 256 strata) and X, Y codes above 2^24"""
+    if rng.random() < 0.5:
+        nz = rng.choice([0, 1])
+        ncols = 2 + nz
+        X, Y, Z = 0, 1, list(range(2, ncols))
+        cards = [rng.choice([9, 17]), rng.choice([2, 3, 9])] + [2] * nz
+        rows = gen_rows(rng, ncols, cards, rng.choice([64, 65, 129, 257]), rng.choice(["unif", "copy"]), X, Y, Z)
+        law = "levels-9-17"
+    else:
+        ncols, X, Y, Z = 3, 0, 1, [2]
+        n = rng.choice([600, 777])
+        rows = [[rng.randrange(3), rng.randrange(2), rng.randrange(300)] for _ in range(n)]
+        law = "strata>256"
+    if rng.random() < 0.5:
+        X, Y = Y, X
+    c = {"kind": "disc", "kinds": [None] * ncols, "rows": rows, "X": X, "Y": Y, "Z": Z, "w": rng.choice(WRAPPERS[:5]),
+         "larg": None, "alpha": rng.choice(ALPHAS), "law": law, "lab": rng.randint(0, 3), "sh": rng.randint(0, 10 ** 9)}
+    decorate(rng, c)
+    c["dt"] = [rng.choice(["bigint", "int", "int8" if law != "strata>256" else "int", "obj-str" if law != "strata>256" else "relabel"])
+               for _ in range(ncols)]
     return c
 
 
@@ -308,10 +340,21 @@ def gen_pearson(rng, tier):
         scs = rng.sample([1, 4, 16, 48], nz)
         z = [[offs[j] + scs[j] * rng.randint(-10, 10) for j in range(nz)] for _ in range(n)]
     sing = None
-    if nz >= 2 and rng.random() < 0.15:
-        sing = rng.choice(["dup", "const"])
+    if nz >= 2 and rng.random() < 0.25:
+        sing = rng.choice(["dup", "const", "total", "onehot", "scaled-dup"])
         for r in z:
-            r[-1] = r[0] if sing == "dup" else 24
+            if sing == "dup":
+                r[-1] = r[0]
+            elif sing == "const":
+                r[-1] = 24
+            elif sing == "scaled-dup":
+                r[-1] = 4 * r[0] + 16          # an exact affine copy
+            elif sing == "total":              # a total next to its parts (needs 3 columns, else a duplicate)
+                r[-1] = sum(r[:-1])
+            elif sing == "onehot":             # all k one-hot dummies of a k-level factor: they sum to the intercept
+                lvl = rng.randrange(nz)
+                for j in range(nz):
+                    r[j] = 16 if j == lvl else 0
     x, y = [], []
     cx = [rng.randint(-3, 3) for _ in range(nz)]
     cy = [rng.randint(-3, 3) for _ in range(nz)]
@@ -393,6 +436,19 @@ def index_kinds_for(case):
 # offsets (in units of the column's spread) and unit changes for the conditioning stream
 BIG_OFFSETS = [0.0, 1e2, 1e4, 1e6, 4e6, 1e7, 1e8, 1e9]
 BIG_SCALES = [1e-8, 1e-6, 1e-3, 1.0, 1e3, 1e6, 1e8]
+
+
+def gen_pearson_wide(rng, tier):
+    """8 or 9 conditioning variables, 17 / 24 / 33 rows"""
+    nz = rng.choice([8, 9])
+    n = rng.choice([17, 24, 33])
+    z = [[rng.randint(-8, 8) * 16 for _ in range(nz)] for _ in range(n)]
+    x = [sum(r[:3]) + rng.randint(-8, 8) * 16 for r in z]
+    y = [r[1] - r[4] + rng.randint(-8, 8) * 16 for r in z]
+    return {"kind": "pearson", "den": 16, "z": z, "x": x, "y": y, "alpha": rng.choice(ALPHAS), "mode": "wide", "sing": None,
+            "spread": False, "const": None, "shifts": [rng.randint(-96, 96) for _ in range(nz + 2)],
+            "scales": [rng.choice([0.5, 2.0, 3.0]) for _ in range(nz + 2)], "pnames": rng.randrange(5),
+            "zform": rng.choice(ZFORMS), "zperm": rng.randint(0, 10 ** 9)}
 
 
 def gen_pearson_big(rng, tier):
@@ -528,7 +584,11 @@ def gen_session(rng, tier):
         prevZ = Z
         w = rng.choice(WRAPPERS[:5])
         steps.append({"edit": edit, "X": X, "Y": Y, "Z": Z, "w": w, "alpha": rng.choice(ALPHAS)})
-    return {"kind": "session", "ncols": ncols, "rows": rows, "steps": steps}
+    for st in steps:
+        st["zform"] = rng.choice(ZFORMS)
+        st["callform"] = rng.choice(["kw", "pc", "pos"])
+    return {"kind": "session", "ncols": ncols, "rows": rows, "steps": steps,
+            "index": rng.choice(["range", "dup", "perm", "str", "multi-dup"]), "sh": rng.randint(0, 10 ** 9)}
 
 
 def cases(tier, seed):
@@ -541,6 +601,8 @@ def cases(tier, seed):
         out.append(gen_wide(rng, tier))
     for _ in range(40 * mult):
         out.append(gen_const(rng, tier))
+    for _ in range(10 * mult):
+        out.append(gen_manylevels(rng, tier))
     for _ in range(3 * mult):
         out.append(gen_large(rng, tier))
     for _ in range(3 * mult):
@@ -562,6 +624,8 @@ def cases(tier, seed):
         out.append(c)
     for _ in range(80 * mult):
         out.append(gen_pearson_big(rng, tier))
+    for _ in range(2 * mult):
+        out.append(gen_pearson_wide(rng, tier))
     for _ in range(40 * mult):
         out.append(gen_psession(rng, tier))
     for _ in range(40 * mult):
@@ -686,9 +750,9 @@ COLNAMES = [["A", "B", "C", "D", "E", "F"], ["v0", "v1", "v2", "v3", "v4", "v5"]
 NAMESETS = [["x1", "x10", "x", "x100", "x11", "1x", "x101", "x1 ", "xx", "x0", "x2"],
             ["index", "level_0", "size", "count", "values", "0", "level_1", "columns", "data", "lambda_", "Z"],
             ["", " ", "a b", "a", "b", "A", "a.b", "a,b", "a=b", "a|b", "b "],
-            [1, 10, 0, 11, 100, 2, 101, -1, 12, 3, 4]]
+            [1, 10, 0, 300, 1000, 2, 65536, -1, 257, 3, 100000]]
 FLOATCLOSE = [0.1 + 0.2, 0.3, 1e-12, 0.0, 0.30000000000000016]     # distinct floats are distinct levels
-DTYPES_INT = ["int", "relabel", "float", "floatclose", "bool", "obj-str", "str", "Int64", "int8", "obj-tuple"]
+DTYPES_INT = ["bigint", "int", "relabel", "float", "floatclose", "bool", "obj-str", "str", "Int64", "int8", "obj-tuple"]
 
 
 def column_values(vals, dt):
@@ -698,6 +762,8 @@ def column_values(vals, dt):
         return list(vals)
     if dt == "relabel":
         return [3 * v - 2 for v in vals]
+    if dt == "bigint":                       # adjacent codes above 2^24 (not separable in float32)
+        return [16777217 + v for v in vals]
     if dt == "float":
         return [v + 0.5 for v in vals]
     if dt == "floatclose":
@@ -761,7 +827,7 @@ def larg_py(case):
     return {"lambda_": l[1]}, [0, 6]   # the documented spelling 'freeman-tuckey' (accepted since fix 50eed3a)
 
 
-ZFORMS = ["list", "tuple", "set", "frozenset", "ndarray", "index", "iter", "dict_keys"]
+ZFORMS = ["list", "tuple", "set", "frozenset", "ndarray", "index", "iter", "dict_keys", "generator", "map", "filter"]
 
 
 def z_container(zs, form):
@@ -781,12 +847,34 @@ def z_container(zs, form):
         return iter(list(zs))
     if form == "dict_keys":
         return {z: None for z in zs}.keys()
+    if form == "generator":
+        return (z for z in list(zs))
+    if form == "map":
+        return map(lambda z: z, list(zs))
+    if form == "filter":
+        return filter(lambda z: True, list(zs))
     return list(zs)
+
+
+def rebuilt(o):
+    """an equal but NOT identical object (new str / int / float object built at run time)"""
+    if isinstance(o, bool):
+        return o
+    if isinstance(o, str):
+        return "".join([ch for ch in o]) if len(o) > 1 else o
+    if isinstance(o, int):
+        return int(str(o))
+    if isinstance(o, float):
+        return float(repr(o))
+    return o
 
 
 def call_impl(case, df, names, X, Y, Z, boolean):
     from pgmpy.estimators import CITests
     kw, _ = larg_py(case)
+    if case.get("rebuild", True):
+        names = [rebuilt(nm) for nm in names]
+        kw = {k: rebuilt(v) for k, v in kw.items()}
     w = case["w"]
     fn = CITests.power_divergence if w.startswith("power_divergence") else getattr(CITests, w)
     if boolean:
@@ -1005,8 +1093,9 @@ def setcols(df, d):
     return d2
 
 
-PNAMES = [("X", "Y", ["Z0", "Z1", "Z2"]), ("x1", "x10", ["x", "x100", "x11"]), ("index", "size", ["level_0", "count", "values"]),
-          (0, 1, [10, 2, 11]), ("", " ", ["a b", "a", "b"])]
+PNAMES = [("X", "Y", ["Z%d" % i for i in range(9)]), ("x1", "x10", ["x", "x100", "x11", "x2", "x3", "x4", "x5", "x6", "x7"]),
+          ("index", "size", ["level_0", "count", "values", "level_1", "level_2", "columns", "data", "Z", "X"]),
+          (300, 1000, [257, 65536, 100000, 258, 259, 260, 261, 262, 263]), ("", " ", ["a b", "a", "b", "c", "d", "e", "f", "g", "h"])]
 
 
 def pearson_frame(den, z, x, y, pnames=0):
@@ -1051,9 +1140,9 @@ def run_pearson(case, drv):
     df, xn, yn, zn = pearson_frame(den, z, x, y, case.get("pnames", 0))
     snap = df.copy(deep=True)
     zform = case.get("zform", "list")
-    zc = lambda names_: z_container(names_, zform)
+    zc = lambda names_: z_container([rebuilt(q) for q in names_], zform)
     tags += ["pnames:%d" % case.get("pnames", 0), "zform:" + zform]
-    coef_i, p_i = CITests.pearsonr(xn, yn, zc(zn), df, boolean=False)
+    coef_i, p_i = CITests.pearsonr(rebuilt(xn), rebuilt(yn), zc(zn), df, boolean=False)
     coef_i, p_i = float(coef_i), float(p_i)
     fr = lambda v: Fraction(v, den)
     m = drv.call("c19_pearson", [nz == 0, [[fr(v) for v in r] for r in z], [fr(v) for v in x], [fr(v) for v in y]])
@@ -1081,7 +1170,7 @@ def run_pearson(case, drv):
             # if lstsq is exact, so the strict check is made for Z = [] only): coefficient and p-value are NaN
             # and the verdict is False for every significance level
             tags.append("constant-column:%s" % ("noZ" if nz == 0 else "Z"))
-            v_i = bool(CITests.pearsonr(xn, yn, tuple(zn), data=df, independencies=None, significance_level=case["alpha"]))
+            v_i = bool(CITests.pearsonr(rebuilt(xn), rebuilt(yn), tuple(rebuilt(q) for q in zn), data=df, independencies=None, significance_level=case["alpha"]))
             v_m = bool(drv.call("c19_verdict", [p_opt(p_i), Fraction(case["alpha"])]))
             if nz == 0 and not (coef_i != coef_i and p_i != p_i and v_i is False):
                 return bad("impl!=model:pearson-constant", {"impl": [coef_i, p_i, v_i], "model": ["nan", "nan", False]},
@@ -1100,7 +1189,7 @@ def run_pearson(case, drv):
     if not same_float(p_i, p_m, 1e-8, True):
         return bad("impl!=model:pearson-p", {"impl": p_i, "model": p_m, "r": r_m, "n": n}, key=key, tags=tags)
     alpha = case["alpha"]
-    v_i = bool(CITests.pearsonr(xn, yn, tuple(zn), data=df, independencies=None, significance_level=alpha))
+    v_i = bool(CITests.pearsonr(rebuilt(xn), rebuilt(yn), tuple(rebuilt(q) for q in zn), data=df, independencies=None, significance_level=alpha))
     v_own = bool(drv.call("c19_verdict", [p_opt(p_i), Fraction(alpha)]))
     if v_i != v_own:
         return bad("impl!=model:verdict", {"p_impl": p_i, "alpha": alpha, "impl": v_i, "model": v_own}, key=key, tags=tags)
@@ -1140,7 +1229,7 @@ def run_pearson(case, drv):
     xs = case.get("xscales")
     # (not with an exactly duplicated conditioning column: a non-dyadic factor rounds every entry, so the scaled copy
     #  is no longer an exact multiple of its twin and the data as given has a genuine 1e-14-sized extra direction)
-    if xs and case.get("sing") != "dup":
+    if xs and not case.get("sing"):
         cols = [xn, yn] + zn
         variants.append(("extreme-scale-all", setcols(df, {c: df[c] * xs[i] for i, c in enumerate(cols)}), zn))
         j = rng.randrange(len(cols))
@@ -1148,20 +1237,20 @@ def run_pearson(case, drv):
         tags.append("extreme-scales")
     variants.append(("row-shuffle", df.sample(frac=1.0, random_state=case["zperm"] % (2 ** 31)).reset_index(drop=True), zn))
     for name, d2, z2 in variants:
-        c2, p2 = CITests.pearsonr(xn, yn, zc(z2), d2, boolean=False)
+        c2, p2 = CITests.pearsonr(rebuilt(xn), rebuilt(yn), zc(z2), d2, boolean=False)
         tol = 1e-7 if name.startswith("extreme") else 1e-9
         if not same_float(c2, coef_i, tol) or not same_float(p2, p_i, max(tol, 1e-8), True):
             return bad("impl!=property:pearson-" + name, {"base": [coef_i, p_i], "transformed": [float(c2), float(p2)]},
                        key=key, tags=tags)
         if name.startswith("extreme") and abs(p_i - alpha) >= 1e-6:
-            v2 = bool(CITests.pearsonr(X=xn, Y=yn, Z=z2, data=d2, boolean=True, significance_level=alpha))
+            v2 = bool(CITests.pearsonr(X=rebuilt(xn), Y=rebuilt(yn), Z=[rebuilt(q) for q in z2], data=d2, boolean=True, significance_level=alpha))
             if v2 != v_i:
                 return bad("impl!=property:pearson-" + name + "-verdict", {"base": v_i, "transformed": v2, "p": p_i,
                                                                             "alpha": alpha}, key=key, tags=tags)
     if not (df.equals(snap) and list(df.dtypes) == list(snap.dtypes) and df.index.equals(snap.index)
             and list(df.columns) == list(snap.columns)):
         return bad("argument-mutated:data", {"fn": "pearsonr"}, key=key, tags=tags)
-    c2, p2 = CITests.pearsonr(yn, xn, zn, df, boolean=False)
+    c2, p2 = CITests.pearsonr(rebuilt(yn), rebuilt(xn), [rebuilt(q) for q in zn], df, boolean=False)
     if not same_float(c2, coef_i, 1e-9):
         return bad("impl!=property:pearson-swap-xy", {"base": coef_i, "transformed": float(c2)}, key=key, tags=tags)
     return ok(nontrivial=True, key=key, tags=tags)
@@ -1259,7 +1348,7 @@ def run_psession(case, drv):
                 df[names[e[1]]] = [v / den for v in e[2]]
             elif e[0] == "loc":
                 for lab, c, v in e[1]:
-                    df.loc[lab, names[c]] = v / den
+                    df.iloc[lab, c] = v / den
             elif e[0] == "scalecol":
                 df[names[e[1]]] *= e[2]
             elif e[0] == "perm":
@@ -1406,6 +1495,9 @@ def run_session(case, drv):
     df = pd.DataFrame({names[c]: [r[c] for r in case["rows"]] for c in range(ncols)})
     tags = ["kind:session", "calls:%d" % len(case["steps"])]
     key = common.canon_key(["session", case["rows"], case["steps"]])
+    if case.get("index"):
+        df.index = make_index(case["index"], len(df), case.get("sh", 0))
+        tags.append("session-index:" + case["index"])
     fake = {"w": None, "larg": None, "alpha": None}
     prevZ = None
     for i, st in enumerate(case["steps"]):
@@ -1416,7 +1508,7 @@ def run_session(case, drv):
                 df[names[e[1]]] = e[2]
             elif e[0] == "loc":
                 for lab, c, v in e[1]:
-                    df.loc[lab, names[c]] = v
+                    df.iloc[lab, c] = v
             elif e[0] == "sort":
                 df.sort_values(by=[names[c] for c in e[1]], ascending=e[2], inplace=True, kind="stable")
             elif e[0] == "perm":
@@ -1429,6 +1521,7 @@ def run_session(case, drv):
             tags.append("same-Z-after-edit")
         prevZ = Z
         fake["w"], fake["alpha"] = st["w"], st["alpha"]
+        fake["zform"], fake["callform"] = st.get("zform", "list"), st.get("callform", "kw")
         rows = [[int(v) for v in r] for r in df[names].values.tolist()]      # the frame's CURRENT content
         kinds = [None] * len(names)
         model = model_triple(drv, st["w"], kinds, rows, X, Y, Z)
